@@ -99,6 +99,7 @@ struct PropT : PropBase {
     return rc::check(std::string(id) + "/" + part, [&]() {
       T v = *gen(thorough);
       std::string t = text(v);
+      alarm(15); // a case that never returns (hang / livelock in the code under test) kills the child: attributed to this case
       if (cx.slot) {
         size_t n = std::min(t.size(), kSlot - 1);
         memcpy(cx.slot, t.data(), n);
@@ -144,6 +145,7 @@ struct EnumProp : PropBase {
       std::string t = std::to_string(i) + (thorough ? " T" : " Q");
       if (cx.slot)
         strcpy(cx.slot, t.c_str());
+      alarm(120);
       Outcome o = runIdx(i, thorough);
       ++cx.evals;
       for (auto& k : o.classes)
@@ -330,6 +332,7 @@ inline int runMain(int argc, char** argv, std::vector<std::unique_ptr<PropBase>>
         size_t n = std::min(replayText.size(), kSlot - 1);
         memcpy(slot, replayText.data(), n);
         slot[n] = 0;
+        alarm(prop->enumerated ? 120 : 15);
         Outcome oc = prop->replay(replayText);
         cx.evals = 1;
         if (!oc.ok) {
